@@ -59,6 +59,11 @@ def _parse_sid_even(text):
     return text
 
 
+@parse.with_pattern(r"k\d*0")
+def _parse_sid_ten(text):
+    return text
+
+
 @parse.with_pattern(r"a\d+")
 def _parse_asid(text):
     return text.upper()      # a converter whose result is a string DIFFERENT from the matched text ("a12" -> "A12")
@@ -95,7 +100,7 @@ class RunLab(object):
         self.StepNotImplementedError = StepNotImplementedError
         self.async_run_until_complete = async_run_until_complete
         self.TagExpressionProtocol = TagExpressionProtocol
-        self.types = {"Sid": _parse_sid, "SidEven": _parse_sid_even, "ASid": _parse_asid, "Bad": _parse_bad}
+        self.types = {"Sid": _parse_sid, "SidTen": _parse_sid_ten, "SidEven": _parse_sid_even, "ASid": _parse_asid, "Bad": _parse_bad}
         self.parse_cache = {}
 
     # ------------------------------------------------------------------
@@ -133,6 +138,19 @@ class RunLab(object):
                 state.calls.append(("<optional-part-not-None>", repr(mark)))
             lab.on_step(state, context, sid + " " + rest)
 
+        # texts whose id ends in 0 have one definition PER STEP TYPE (@given / @when / @then with the same pattern): each records
+        # when it is called for a step of another type (the step in hand is the one the before_step hook saw last)
+        def typed(kind):
+            def step_typed(context, sid, rest):
+                cur = getattr(state, "current_step_type", None)
+                if cur is not None and cur != kind:
+                    state.calls.append(("<definition of another step type>", "@%s definition called for a %s step: %s %s" % (kind, cur, sid, rest)))
+                state.typed_definition_calls = getattr(state, "typed_definition_calls", 0) + 1
+                lab.on_step(state, context, sid + " " + rest)
+            step_typed.__name__ = "step_typed_%s" % kind
+            return step_typed
+        for kind in ("given", "when", "then"):
+            reg.steps[kind].append(self.ParseMatcher(typed(kind), "{sid:SidTen} {rest}", kind, custom_types=self.types))
         from behave.matchers import RegexMatcher
         for fn, pat in ((step_sync, "{sid:SidEven} {rest}"), (step_async, "{sid:ASid} {rest}"), (step_bad, "{sid:Bad} {rest}")):
             reg.steps["step"].append(self.ParseMatcher(fn, pat, "step", custom_types=self.types))
@@ -221,6 +239,8 @@ class RunLab(object):
                 state.events.append(("hook",) + rec)
                 state.in_user_code += 1
                 try:
+                    if name == "before_step":
+                        state.current_step_type = getattr(elem, "step_type", None)
                     if name == "before_scenario":
                         state.ran_objects[(getattr(elem, "filename", None), elem.name, elem.line)] = elem
                     if state.user_skip and name in ("before_feature", "before_rule") and getattr(elem, "name", None) in state.user_skip:
@@ -321,7 +341,17 @@ class RunLab(object):
             config.reporters = list(reporters(config)) if reporters else []
             st.config = config
             if features is None:
-                features = self.parse_program(program)
+                try:
+                    features = self.parse_program(program)
+                except Exception as ex:
+                    # the generated programs are legal Gherkin: a parser that rejects one is an observation, reported through the
+                    # same channel as an exception that escapes the run -- not a reason for the shard to die
+                    st.escaped = ex
+                    st.setup_failed = True
+                    st.elem_status, st.step_status, st.step_names, st.elem_kind, st.order = {}, {}, {}, {}, []
+                    st.step_types = {}
+                    st.features = []
+                    return st
             st.features = features
             reg = self.make_registry(st)
             runner = self.ModelRunner(config, features=features, step_registry=reg)
